@@ -1239,6 +1239,23 @@ pub fn on_packet_complete(w: &mut World, conn: usize, idx: usize, t: u64) {
     // C10 (1): while the application keeps waiting, consecutive completed packets are at most
     // K_eff apart. Only meaningful in the timing profile (continuous poll, zero-time writes).
     let is_ping = matches!(w.conns[conn].packets[idx].pkt, Packet::PingReq);
+    // C19: a refused request leaves no trace - not in the keep-alive schedule either. While the
+    // application keeps waiting (simulated time passes only in its waits) and all writes are
+    // accepted at once, a request that was refused since the last completed packet must not make
+    // the next packet late. (k >= 10 and no PINGRESP outstanding: outside the open C10 finding.)
+    if w.cfg.profile == Profile::Invalid && w.conns[conn].established && w.conns[conn].refused_since_last_complete && w.cfg.p_slow_write == 0 && w.cfg.p_peer_stall == 0 {
+        if let (Some(k), Some(last)) = (keepalive_eff(w, conn), w.conns[conn].last_complete_t) {
+            let outstanding = w.conns[conn].outstanding_at_last_complete;
+            if k >= 10 && !outstanding && w.app_waiting_since.is_some_and(|s| s <= last) && t - last > k as u64 * US_PER_S {
+                w.violate(
+                    "C19",
+                    "refused-request-changed-state/keep-alive-schedule".into(),
+                    format!("{} us between completed client packets (effective keep-alive {} s) while the application kept waiting; a request was refused in between", t - last, k),
+                );
+            }
+        }
+    }
+    w.conns[conn].refused_since_last_complete = false;
     if w.cfg.profile == Profile::Timing && w.conns[conn].established {
         if let (Some(k), Some(last)) = (keepalive_eff(w, conn), w.conns[conn].last_complete_t) {
             if k > 0 && w.app_waiting_since.is_some_and(|s| s <= last) {
